@@ -9,7 +9,11 @@ Tie:    in-package (actor): the REAL sender (remoteclient RemoteTell coalesced /
         values, empty value lists, empty maps, case-colliding keys); the RemoteMessages it produces are captured
         and handed to the REAL remoteTellHandler in EVERY composition of the 6 messages of a group, with and
         without request-level metadata; a recording propagator + actor report, per message, the chain of header
-        sets Extract was called with. Also real coalescer batching under concurrent callers, direct tell, ask.
+        sets Extract was called with. Also real coalescer batching under concurrent callers, direct tell, ask,
+        first-hop asks whose context already carries (stale) wire metadata, and two-hop relays: client -> relay
+        actor on node 1, which derives its outbound context from the context of the message it is handling and
+        injects something else -> leaf actor on node 2 (relay by ask through the system's own client and by a
+        non-coalesced tell; first hop by ask and by tell).
         The Coq model (canon, first_values, restore, deliver) is evaluated on the same cases.
 Oracle: per message: the last Extract saw exactly canon(first_values(injected)) (a Python re-statement of the
         property, independent of the Coq evaluation), nothing of another message's headers appears in the
@@ -19,7 +23,23 @@ import json
 import os
 import re
 
-from vlib import read_jsonl, canon_hash, coq_string
+from vlib import canon_hash, coq_string
+
+
+def read_jsonl(path):
+    """one JSON value per line; a harness that died mid-write leaves a truncated last line: skip it"""
+    out = []
+    if not os.path.exists(path):
+        return out
+    for line in open(path, errors="replace"):
+        line = line.strip()
+        if not line:
+            continue
+        try:
+            out.append(json.loads(line))
+        except ValueError:
+            continue
+    return out
 
 TOKEN = set("!#$%&'*+-.^_`|~0123456789abcdefghijklmnopqrstuvwxyzABCDEFGHIJKLMNOPQRSTUVWXYZ")
 
@@ -231,7 +251,7 @@ def run(ctx):
             f.write(json.dumps(g) + "\n")
     rc, out = ctx.go_test("actor", "^TestVerifC29", ["zz_verif_C29_test.go"], env={"CGO_ENABLED": "0"}, timeout=1200)
     recs = read_jsonl(outp)
-    want = sum(32 * 6 + 3 * 6 + 6 + 6 for _ in groups)
+    want = sum(32 * 6 + 3 * 6 + 6 + 6 + 6 + 24 for _ in groups)
     if rc != 0 or len(recs) < want:
         ctx.tie_broken("go-harness actor remoteTellHandler/messageMetadata", "rc=%s records=%d expected>=%d\n%s" % (rc, len(recs), want, out))
 
@@ -312,7 +332,7 @@ def run(ctx):
     ctx.coverage.update({
         "evaluations": len(recs),
         "distinct_nontrivial": sum(1 for inj, _, got, _ in triples if inj),
-        "rule": "groups of 6 messages (corpus + seeded: canonical single-valued, multi-valued via Add/raw, raw non-canonical keys, case-colliding keys, empty value lists, no headers; every group mixes messages with and without headers); every group is delivered in all 32 batchings x (with/without request-level metadata), through the real coalescer with 3 concurrent callers, as direct tells and as asks; evaluations = messages observed; distinct_nontrivial = distinct (injected, wire, restored) triples with a non-empty injected header map",
+        "rule": "(plus per group 6 first-hop asks with pre-attached stale metadata and 24 two-hop relays whose second hop injects the next message's headers) groups of 6 messages (corpus + seeded: canonical single-valued, multi-valued via Add/raw, raw non-canonical keys, case-colliding keys, empty value lists, no headers; every group mixes messages with and without headers); every group is delivered in all 32 batchings x (with/without request-level metadata), through the real coalescer with 3 concurrent callers, as direct tells and as asks; evaluations = messages observed; distinct_nontrivial = distinct (injected, wire, restored) triples with a non-empty injected header map",
         "samples": [groups[0]["specs"][:3], recs[3] if len(recs) > 3 else None, recs[-1] if recs else None],
         "records_by_part": parts, "header_kinds_in_distinct_cases": kinds,
         "coq_cases": len(triples), "coq_mismatches": mism, "oracle_violations": n_viol,
